@@ -16,6 +16,8 @@ pub struct Prog {
     pub exit_vaddr: u32,
     pub desc: String,
     pub shape: [u64; 4],
+    /// external levels on the pins of ports 1-B while the program runs
+    pub pins: [u8; 11],
 }
 
 fn reg_op(rng: &mut Rng) -> Vec<u16> {
@@ -43,6 +45,13 @@ pub fn gen_prog(rng: &mut Rng, target_scaled: u64, plant: u8) -> Prog {
 /// final jump (used to place the end of the program exactly at a sync threshold); such programs do
 /// not use the timer so that their timing is additive.
 pub fn gen_prog_tail(rng: &mut Rng, target_scaled: u64, plant: u8, tail: Option<(u32, u32)>) -> Prog {
+    // external pin levels: none driven (half of the programs), or random per port
+    let mut pins = [0u8; 11];
+    if rng.chance(1, 2) {
+        for p in pins.iter_mut() {
+            *p = if rng.chance(1, 3) { 0xff } else { rng.u8() };
+        }
+    }
     let mut a = Asm::new(BASE);
     let uses_timer = rng.chance(1, 2) && tail.is_none();
     let nsubs = 1 + rng.below(3) as usize;
@@ -118,7 +127,8 @@ pub fn gen_prog_tail(rng: &mut Rng, target_scaled: u64, plant: u8, tail: Option<
                 // port traffic: DDR then DR of a random port
                 shape_io += 1;
                 let p = rng.below(11) as u32;
-                a.mov_b_imm(8, *rng.pick(&[0xffu8, 0x0f, 0xf0]));
+                let ddr = if rng.chance(1, 3) { rng.u8() } else { *rng.pick(&[0xffu8, 0x0f, 0xf0]) };
+                a.mov_b_imm(8, ddr);
                 a.mov_b_to_abs24(8, 0xfee000 + p);
                 a.mov_b_imm(8, rng.u8());
                 a.mov_b_to_abs8(8, 0xd0 + p as u8);
@@ -210,6 +220,7 @@ pub fn gen_prog_tail(rng: &mut Rng, target_scaled: u64, plant: u8, tail: Option<
         exit_vaddr,
         desc: format!("blocks={} loops={} io-blocks={} timer={} plant={} target={}", nblocks, shape_loops, shape_io, uses_timer, plant, target_scaled),
         shape: [shape_loops, shape_io.min(3), uses_timer as u64, plant as u64],
+        pins,
     }
 }
 
@@ -299,19 +310,57 @@ fn timer_regs(cpu: &Cpu) -> [u8; 5] {
 /// Run `elf` with `args` through the real loader and run loop while a twin predicts every
 /// iteration. Returns the run result and the findings of the tracer.
 pub fn traced_run(elf_path: &str, args: &str, with_twin: bool, max_ticks: u64) -> (RunResult, Vec<(String, String)>) {
-    traced_run_from(elf_path, args, with_twin, max_ticks, 0)
+    traced_run_from(elf_path, args, with_twin, max_ticks, 0, &[0; 11])
+}
+
+/// A port message that announces the value already announced last for that port (0 after reset)
+/// carries no information; the properties allow such repetitions (C16) and do not require them, so
+/// they are removed from both streams before the sequences are compared.
+pub fn drop_redundant_port_messages(msgs: &[String]) -> Vec<String> {
+    let mut last = [0u32; 16];
+    let mut out = vec![];
+    for m in msgs {
+        if let Some(rest) = m.strip_prefix("ioport:") {
+            let f: Vec<&str> = rest.split(':').collect();
+            if f.len() == 3 {
+                if let (Ok(p), Ok(v)) = (usize::from_str_radix(f[0], 16), u32::from_str_radix(f[1], 16)) {
+                    if p < 16 {
+                        if last[p] == v {
+                            continue;
+                        }
+                        last[p] = v;
+                    }
+                }
+            }
+        }
+        out.push(m.clone());
+    }
+    out
 }
 
 /// As `traced_run`, with the state count starting at `start` (a system that has been running for a
 /// long time: counters beyond 2^31 / 2^32).
-pub fn traced_run_from(elf_path: &str, args: &str, with_twin: bool, max_ticks: u64, start: u64) -> (RunResult, Vec<(String, String)>) {
+pub fn traced_run_from(elf_path: &str, args: &str, with_twin: bool, max_ticks: u64, start: u64, pins: &[u8; 11]) -> (RunResult, Vec<(String, String)>) {
     let mut rig = RunRig::new();
     crate::elf::load(elf_path.to_string(), &mut rig.cpu, args.to_string());
+    // external levels on the port pins (they matter for mixed-direction ports)
+    for (p, v) in pins.iter().enumerate() {
+        if *v != 0 {
+            rig.cpu.bus.write_port(p as u8 + 1, *v);
+        }
+    }
+    let _ = rig.drain();
     let trace = shared(Trace::default());
     let stop_tx = rig.to_emu.clone();
     let twin_rig = if with_twin {
         let mut t = RunRig::new();
         crate::elf::load(elf_path.to_string(), &mut t.cpu, args.to_string());
+        for (p, v) in pins.iter().enumerate() {
+            if *v != 0 {
+                t.cpu.bus.write_port(p as u8 + 1, *v);
+            }
+        }
+        let _ = t.drain();
         t.cpu.verif_set_pc(t.cpu.er[2]);
         let _ = t.cpu.verif_init_registers();
         Some(shared(t))
@@ -494,10 +543,13 @@ pub fn traced_run_from(elf_path: &str, args: &str, with_twin: bool, max_ticks: u
                 }
             }
         }
-        if msgs != t.expected_msgs {
-            let i = msgs.iter().zip(t.expected_msgs.iter()).position(|(a, b)| a != b).unwrap_or(msgs.len().min(t.expected_msgs.len()));
-            let aspect = if msgs.get(i).map(|m| m.starts_with("sync:")).unwrap_or(false) || t.expected_msgs.get(i).map(|m| m.starts_with("sync:")).unwrap_or(false) { "sync-messages" } else { "message-sequence" };
-            findings.push((aspect.into(), format!("message {} is {:?}, expected {:?} ({} emitted, {} expected, {} thresholds crossed)", i, msgs.get(i), t.expected_msgs.get(i), msgs.len(), t.expected_msgs.len(), t.crossed)));
+        let (msgs_n, expected_n) = (drop_redundant_port_messages(&msgs), drop_redundant_port_messages(&t.expected_msgs));
+        let (msgs_c, expected_c) = (&msgs_n, &expected_n);
+        if msgs_c != expected_c {
+            let (msgs, expected_msgs) = (msgs_c, expected_c);
+            let i = msgs.iter().zip(expected_msgs.iter()).position(|(a, b)| a != b).unwrap_or(msgs.len().min(expected_msgs.len()));
+            let aspect = if msgs.get(i).map(|m| m.starts_with("sync:")).unwrap_or(false) || expected_msgs.get(i).map(|m| m.starts_with("sync:")).unwrap_or(false) { "sync-messages" } else { "message-sequence" };
+            findings.push((aspect.into(), format!("message {} (repeated port announcements removed) is {:?}, expected {:?} ({} emitted, {} expected, {} thresholds crossed)", i, msgs.get(i), expected_msgs.get(i), msgs.len(), expected_msgs.len(), t.crossed)));
         }
     }
     let res = RunResult { end, regs: rig.cpu.er, state_sum: rig.cpu.verif_state_sum() as u64, digest: mem_digest(&rig.cpu), msgs, ticks: t.ticks, gave_up: t.gave_up };
@@ -533,7 +585,7 @@ pub fn c13_case(rep: &mut Report, seed: u64, verbose: bool) -> bool {
     let replay = format!("check=C13 kind=runloop seed={}", seed);
     // one program in four runs on a system that has been up for a long time (state count near a power of two)
     let start: u64 = if rng.chance(1, 4) { (1u64 << *rng.pick(&[31u32, 32, 32, 33, 40])) - rng.below(6000) } else { 0 };
-    let (res, findings) = traced_run_from(&path, &args, true, 6_000_000, start);
+    let (res, findings) = traced_run_from(&path, &args, true, 6_000_000, start, &prog.pins);
     rep.evaluations += 1;
     rep.cell("start-count-magnitude", &[(64 - start.leading_zeros()) as u64]);
     if res.gave_up {
@@ -580,7 +632,7 @@ pub fn c13_case(rep: &mut Report, seed: u64, verbose: bool) -> bool {
                     }));
                 }
             }
-            let (r, _) = traced_run_from(&path, &args, false, 6_000_000, start);
+            let (r, _) = traced_run_from(&path, &args, false, 6_000_000, start, &prog.pins);
             busy.store(false, std::sync::atomic::Ordering::Relaxed);
             for h in handles {
                 let _ = h.join();
